@@ -53,7 +53,7 @@ def generate(rng, prop, tier):
     sc = {
         'engine': NAME, 'kind': kind, 'n': n, 'r': rng.randint(1, 4 if kind != 'als_func' else 3),
         'y0seed': rng.randrange(1 << 30), 'dseed': rng.randrange(1 << 30),
-        'm': rng.choice([1, 2, 3, 5, 8, 12, 20, 30, 40]),
+        'm': rng.choice([1, 2, 3, 4, 5, 6, 8, 12, 20, 30, 40]),
         'dup': rng.choice([0, 0, 1, 3]),
         'lamb': rng.choice([1e-3, 1e-3, 1e-2, 0.1, 1.0]),
         'w': rng.random() < 0.35,
@@ -140,7 +140,8 @@ def build_data(sc):
     for j in range(max(n)):
         rows.append([min(j, k - 1) for k in n])
     if sc.get('kind') == 'als_func':
-        X = g.uniform(sc['ab'][0], sc['ab'][1], (len(rows), d))
+        # the functional version has no slice-coverage requirement: exactly m points (m may equal the number of basis functions)
+        X = g.uniform(sc['ab'][0], sc['ab'][1], (m, d))
         rows = None
     if rows is not None and sg is not None:
         k, j = sg['mode'], sg['index']
